@@ -43,6 +43,11 @@ def _fudge_modified(old_modified, new_modified, use_stix21):
     :return: A suitable new "modified" timestamp.  This may be different from
         what was passed in, if it had to be pushed ahead.
     """
+    if old_modified.utcoffset() is not None:
+        # Arithmetic on an aware datetime is wall-clock arithmetic in its own
+        # zone and resets "fold": push ahead on the UTC time line instead.
+        old_modified = old_modified.astimezone(dt.timezone.utc)
+
     if use_stix21:
         # 2.1+: we can use full precision
         if new_modified <= old_modified:
